@@ -65,7 +65,9 @@ class C18(PropBase):
         "from_raw, the format_register dispatch arms, the statement shapes around the translated parts - are compared textually) — "
         "validated by the correspondence run against the live methods",
         "C18/Model.v: hand-written semantics of the tables and of the generated expressions (match = first matching arm; HashSet modelled "
-        "as a list; values unbounded, a widening cast is the identity; CpuRegisters as a list-state iterator; format_register as a hex renderer)",
+        "as a list; values unbounded, a widening cast is the identity; CpuRegisters as a (variant, list) iterator; format_register as a hex "
+        "renderer; MinidumpContext::read as architecture match + length test + CPU-flag test; derive(Pread) as packed fields in declared "
+        "order, little- or big-endian)",
         "extraction: ExtrOcamlBasic only; ocaml/zconv.ml + ocaml/c18/main.ml glue; harness/src/bin/c18.rs",
     ]
     manifest = {
@@ -89,11 +91,17 @@ class C18(PropBase):
                 "otherwise. c18_read_dispatch / c18_read_architectures: MinidumpContext::read's architecture arms, struct sizes and CPU "
                 "flag constants are translated; for all architecture numbers, lengths and flags a context is produced only as the variant "
                 "of one of the nine tables from a buffer holding the whole struct with the type's own CPU flag, every table is chosen, "
-                "and the WinNT.h / Breakpad architecture numbers select exactly their types. "
+                "and the WinNT.h / Breakpad architecture numbers select exactly their types; c18_read_registers: on the deserialised context "
+                "(byte offsets regenerated from format.rs, both byte orders, ALL byte strings) every accepted name reads the number in the "
+                "size_of::<Register>() bytes at its location's offset, inside the Register type, different registers in disjoint bytes. "
+                "c18_write_sequence: a sequence of set_register calls of ANY length through ANY strings never panics and every name then "
+                "reads the last value written through any spelling of its register (the dedicated accessors too). "
                 "Proof by a diagnostic checker evaluated on the generated tables and lifted by generic lemmas. "
                 "The translator is validated by running the live methods on every (type, name, validity class, value, flag/fill pattern) "
-                "case against the extracted model; an independent oracle judges the implementation's answers (incl. each dedicated accessor "
-                "against the by-name read).",
+                "case against the extracted model, plus MinidumpContext::read itself (through MinidumpSystemInfo::read) on filled and patterned "
+                "buffers of every length class in both byte orders with every register compared, plus write sequences; an independent oracle "
+                "judges the implementation's answers (incl. each dedicated accessor against the by-name read, last-write-wins, the "
+                "architecture -> type table, each register read = a run of consecutive pattern bytes).",
         "note": "Trusted: Coq kernel; the translator (correspondence-checked); hand-written semantics of tables/expressions; extraction + glue. "
                 "The statement shapes around the translated sub-expressions, registers(), from_raw and the format_register dispatch arms "
                 "are modelled by hand and pinned textually by the translator. MinidumpContext::read is modelled as the choice of the type "
